@@ -502,8 +502,12 @@ async fn run_case(addr: SocketAddr, certs: &Certs, t: &[&str]) -> anyhow::Result
     }
 }
 
-pub fn run(cfg: &Cfg) {
-    let mut out = Out::new(&cfg.out, "registry");
+pub fn run(cfg: &Cfg) { run_named(cfg, "registry") }
+
+/// `regbig`: the cases of `registry` in which whole frames at and around the size limit, and frames pipelined with the
+/// registration, travel through the real codec and the real routers (the data path, without the stall scenarios)
+pub fn run_named(cfg: &Cfg, name: &str) {
+    let mut out = Out::new(&cfg.out, name);
     let rt = runtime();
     let certs = Certs::generate(&scratch_dir("reg")).expect("certificates");
     let mut addr = rt.block_on(async { start_server(&certs) }).expect("server");
@@ -563,6 +567,7 @@ pub fn run(cfg: &Cfg) {
     let mut dead = false;
     // the messaging pattern each (valid) topic name was first registered with, in this run
     let mut pattern: std::collections::HashMap<String, bool> = std::collections::HashMap::new();
+    if name == "regbig" { cases.retain(|c| c.starts_with("reg big") || c.starts_with("reg pipeline") || c.starts_with("reg abuse")); }
     for c in &cases {
         let t: Vec<&str> = c.split(' ').collect();
         if dead {
@@ -594,7 +599,7 @@ pub fn run(cfg: &Cfg) {
                         let max = (1usize << 20) /* the property's 1 MiB */;
                         if l <= max && !line.contains(" sent ") { m = Err(format!("C05/C11: a frame of payload length {l} <= limit was refused by the encoder: {line}")); }
                         if t[2] == "RP" && l <= max && !line.contains(&format!("got={},5 ", l - 9)) { m = Err(format!("C01/C03/C11: a publisher's frame within the limit (payload length {l}) did not reach the subscriber, or took the following message with it: {line}")); }
-                        if t[2] == "RQ" && !line.contains("after=len5") { m = Err(format!("C11: after a request of payload length {l} the next request on the same stream was not answered: {line}")); }
+                        if t[2] == "RQ" && !line.contains("after=len5") { m = Err(format!("C02/C08/C11: after a request of payload length {l} (refused or not by the replier's sink once tagged) the next request was not answered: {line}")); }
                     }
                     if t[1] == "pipeline" {
                         let want = if t[2] == "RP" { "got=first+second+third+fourth" } else { "got=r:first+r:second+r:third" };
